@@ -54,3 +54,234 @@ func vhC15SingleDecodeTotal() {
 	vsAssertBytesEq(c, in[hdr:hdr+len(c)], "content-is-window")
 	vsAssertBytesEq(rest, in[hdr+len(c):], "rest-is-tail")
 }
+
+func init() {
+	vsRegister("C15.list_roundtrip", vhC15ListRoundtrip)
+	vsRegister("C15.list_decode_total", vhC15ListDecodeTotal)
+	vsRegister("C15.reject_malformed", vhC15RejectMalformed)
+	vsRegister("C15.utp_content", vhC15UtpContent)
+	vsRegister("C15.list_roundtrip_symlen", vhC15ListRoundtripSymLen)
+	vsRegister("C15.prefix_lemma", vhC15PrefixLemma)
+	vsRegister("C15.decode_step_inductive", vhC15DecodeStepInductive)
+}
+
+// vhC15Lens: the item lengths enumerated by the list harness (around the 1/2-byte varint boundary).
+var vhC15Lens = []int{0, 1, 127, 128, 3}
+
+// decodeContents(encodeContents(items)) == items for lists of 0..K items with symbolic contents;
+// item lengths are enumerated from {0,1,127,128,3} (shape enumeration). Arbitrary lengths and
+// arbitrary list sizes follow from C15.prefix_lemma by induction over the decode loop.
+//
+//verif:harness C15.list_roundtrip unwind=12 native
+//verif:param K=3/4
+func vhC15ListRoundtrip() {
+	k := vsChoose("k", vsParam("K")+1)
+	items := make([][]byte, k)
+	for i := range items {
+		items[i] = vsBytesN("item", vhC15Lens[vsChoose("len", len(vhC15Lens))])
+	}
+	enc := encodeContents(items)
+	dec, err := decodeContents(enc)
+	vsAssert(err == nil, "decodes")
+	vsAssert(len(dec) == k, "same-count")
+	for i := range items {
+		vsAssertBytesEq(dec[i], items[i], "item-intact")
+	}
+	if k == vsParam("K") {
+		vsCover("max-items")
+	}
+	if k == 0 {
+		vsCover("empty-list")
+	}
+}
+
+// Same law with fully symbolic item lengths (0..2^21) for two items.
+//
+//verif:harness C15.list_roundtrip_symlen unwind=12 native tier=thorough timeout=300
+func vhC15ListRoundtripSymLen() {
+	items := make([][]byte, 2)
+	for i := range items {
+		n := vsInt("n")
+		vsAssume(n >= 0)
+		vsAssume(n <= 1<<21)
+		items[i] = vsBytesN("item", n)
+	}
+	enc := encodeContents(items)
+	dec, err := decodeContents(enc)
+	vsAssert(err == nil, "decodes")
+	vsAssert(len(dec) == 2, "same-count")
+	for i := range items {
+		vsAssertBytesEq(dec[i], items[i], "item-intact")
+	}
+	vsCover("two-items")
+}
+
+// Prefix lemma (inductive step of the list law): for ANY data (length up to 2^32-1) and ANY
+// following bytes, decodeSingleContent(encodeSingleContent(data) ++ rest) == (data, rest).
+//
+//verif:harness C15.prefix_lemma unwind=8 native
+func vhC15PrefixLemma() {
+	n := vsInt("n")
+	m := vsInt("m")
+	vsAssume(n >= 0 && n <= 1<<32-1)
+	vsAssume(m >= 0 && m <= 1<<32)
+	data := vsBytesN("data", n)
+	rest := vsBytesN("rest", m)
+	s := append(encodeSingleContent(data), rest...)
+	c, r, err := decodeSingleContent(s)
+	vsAssert(err == nil, "decodes")
+	vsAssertBytesEq(c, data, "content-intact")
+	vsAssertBytesEq(r, rest, "rest-intact")
+	if m > 0 && n >= 1<<28 {
+		vsCover("five-byte-prefix-with-rest")
+	}
+	if m == 0 {
+		vsCover("no-rest")
+	}
+}
+
+// Decode step on an input of ANY length: error (input handed back), or a split that tiles the
+// input after a 1..5 byte header and makes progress (so the decode loop terminates).
+//
+//verif:harness C15.decode_step_inductive unwind=8 native
+func vhC15DecodeStepInductive() {
+	n := vsInt("n")
+	vsAssume(n >= 0 && n <= 1<<33)
+	in := vsBytesN("in", n)
+	c, rest, err := decodeSingleContent(in)
+	if err != nil {
+		vsAssert(c == nil && len(rest) == len(in), "error-keeps-input")
+		vsCover("rejects")
+		return
+	}
+	vsAssert(len(rest) < len(in), "progress")
+	hdr := len(in) - len(c) - len(rest)
+	vsAssert(hdr >= 1 && hdr <= 5, "header-1-to-5")
+	vsAssert(cap(in)-cap(c) == hdr, "content-starts-after-header")
+	vsAssert(cap(in)-cap(rest) == hdr+len(c), "rest-starts-after-content")
+	if len(c) >= 1<<28 {
+		vsCover("huge-item")
+	}
+	vsCover("accepts")
+}
+
+// decodeContents on arbitrary input: error, or items that tile the input in order, each
+// preceded by a 1..5 byte prefix, nothing left over.
+//
+//verif:harness C15.list_decode_total unwind=60 native
+//verif:param L=6/9
+func vhC15ListDecodeTotal() {
+	in := vsBytes("in", vsParam("L"))
+	items, err := decodeContents(in)
+	if err != nil {
+		vsAssert(items == nil, "error-no-items")
+		vsCover("rejects")
+		return
+	}
+	end := 0
+	for _, c := range items {
+		off := cap(in) - cap(c) // start of c inside in (sub-slices share the capacity end)
+		vsAssert(off >= end+1 && off <= end+5, "prefix-1-to-5-bytes")
+		vsAssert(off+len(c) <= len(in), "item-inside-input")
+		end = off + len(c)
+	}
+	vsAssert(end == len(in), "items-tile-the-input")
+	if len(items) >= 2 {
+		vsCover("two-or-more-items")
+	}
+}
+
+// The three rejection clauses of the property, each on its own.
+//
+//verif:harness C15.reject_malformed unwind=8 native
+func vhC15RejectMalformed() {
+	switch vsChoose("case", 3) {
+	case 0: // length prefix exceeds the remaining bytes
+		n := vsU32("n")
+		have := vsInt("have")
+		vsAssume(have >= 0 && have < int(n))
+		vsAssume(have <= 1<<20)
+		stream := append(encodeSingleContent(nil)[:0], encodeSingleContent(vsBytesN("x", 0))...)
+		_ = stream
+		prefix := vhLeb(n)
+		body := vsBytesN("body", have)
+		s := append(prefix, body...)
+		_, _, err := decodeSingleContent(s)
+		vsAssert(err != nil, "prefix-beyond-remaining-rejected")
+		_, err = decodeContents(s)
+		vsAssert(err != nil, "list-prefix-beyond-remaining-rejected")
+		vsCover("short-body")
+	case 1: // varint that overflows 32 bits: five continuation bytes, or a fifth byte above 0x0f
+		b := vsBytesN("b", 6)
+		vsAssume(b[0] >= 0x80 && b[1] >= 0x80 && b[2] >= 0x80 && b[3] >= 0x80)
+		vsAssume(b[4] >= 0x10)
+		_, _, err := decodeSingleContent(b)
+		vsAssert(err != nil, "varint-overflow-rejected")
+		_, err = decodeContents(b)
+		vsAssert(err != nil, "list-varint-overflow-rejected")
+		vsCover("overflow")
+	case 2: // truncated inside the prefix
+		n := 1 + vsChoose("n", 4)
+		b := vsBytesN("t", n)
+		for i := 0; i < n; i++ {
+			vsAssume(b[i] >= 0x80)
+		}
+		_, _, err := decodeSingleContent(b)
+		vsAssert(err != nil, "truncated-prefix-rejected")
+		vsCover("truncated")
+	}
+}
+
+func vhLeb(v uint32) []byte {
+	var out []byte
+	for {
+		b := byte(v & 0x7f)
+		v >>= 7
+		if v != 0 {
+			out = append(out, b|0x80)
+		} else {
+			return append(out, b)
+		}
+	}
+}
+
+// decodeUtpContent (version 1): accepted iff the prefix covers exactly the remaining bytes;
+// version 0: identity. encodeUtpContent/decodeUtpContent are inverse for both versions.
+//
+//verif:harness C15.utp_content unwind=12 native
+//verif:use enr
+//verif:param L=16/48
+func vhC15UtpContent() {
+	ver := uint8(vsChoose("ver", 2))
+	p := &PortalProtocol{currentVersions: protocolVersions{ver}, versionsCache: vhVersionCache()}
+	n := vhNode(0, []uint8{ver})
+	if vsChoose("dir", 2) == 0 {
+		in := vsBytes("in", vsParam("L"))
+		out, err := p.decodeUtpContent(n, in)
+		if ver == 0 {
+			vsAssert(err == nil, "v0-accepts")
+			vsAssertBytesEq(out, in, "v0-identity")
+			vsCover("v0")
+			return
+		}
+		c, rest, derr := decodeSingleContent(in)
+		exact := derr == nil && len(rest) == 0
+		vsAssert((err == nil) == exact, "v1-accepts-iff-prefix-covers-exactly-the-rest")
+		if err == nil {
+			vsAssertBytesEq(out, c, "v1-content")
+			vsCover("v1-accept")
+		} else {
+			vsCover("v1-reject")
+		}
+		return
+	}
+	ln := vsInt("ln")
+	vsAssume(ln >= 0 && ln <= 1<<21)
+	data := vsBytesN("data", ln)
+	enc, err := p.encodeUtpContent(n, data)
+	vsAssert(err == nil, "encode-ok")
+	dec, err := p.decodeUtpContent(n, enc)
+	vsAssert(err == nil, "roundtrip-decodes")
+	vsAssertBytesEq(dec, data, "roundtrip-intact")
+	vsCover("roundtrip")
+}
